@@ -163,8 +163,10 @@ RECURSIVE UniqueLeaves(_)
 UniqueLeaves(kids) ==
   UNION {UNION {{u[y][Len(u[y])] : y \in 1..Len(u)} : u \in SeqRange(kids[i].uniq)} \cup UniqueLeaves(kids[i].kids)
          : i \in 1..Len(kids)}
-KeyVal(i) == CASE i = 1 -> "1" [] i = 2 -> "2" [] OTHER -> "3"
-LLVals(n) == SubSeq(<<"1", "2", "3", "4">>, 1, n)
+\* keys, leaf-list values and leaf values are drawn so that natural order and byte order differ
+\* (2 < 10 < 100 naturally, "10" < "100" < "2" < "9" bytewise); all are valid int8 and strings
+KeyVal(i) == CASE i = 1 -> "2" [] i = 2 -> "10" [] OTHER -> "9"
+LLVals(n) == SubSeq(<<"2", "10", "9", "100">>, 1, n)
 
 \* DataSets(sk, U, me, ml, ic): all sets of data nodes below a parent with schema children sk;
 \* U = names of two-valued leaves, me = maximal number of list entries, ml = of leaf-list values,
@@ -173,7 +175,7 @@ RECURSIVE DataSets(_, _, _, _, _), EntrySets(_, _, _)
 Opts(c, U, me, ml, ic) ==
   CASE c.kind = "leaf" ->
          {{}} \cup (IF IsEmptyType(c.typ) THEN {{D(c.name, << >>, {})}}
-                    ELSE {{D(c.name, <<v>>, {})} : v \in (IF c.name \in U THEN {"1", "2"} ELSE {"1"})})
+                    ELSE {{D(c.name, <<v>>, {})} : v \in (IF c.name \in U THEN {"2", "10"} ELSE {"2"})})
     [] c.kind = "leaflist" -> {{}} \cup {{D(c.name, LLVals(n), {})} : n \in (IF ic THEN 1 ELSE 0)..ml}
     [] c.kind = "container" ->
          {{}} \cup {{D(c.name, << >>, k)} : k \in (DataSets(c.kids, U, me, ml, FALSE) \ (IF c.presence \/ ~ic THEN {} ELSE {{}}))}
@@ -317,5 +319,20 @@ DataShape(id) ==
     [] id \in 47..50 -> NestShape(1, 2, id - 47)
     [] id \in 51..54 -> NestShape(2, 2, id - 51)
     [] id \in 55..58 -> NestShape(3, 2, id - 55)
-NDataShapes == 58
+    [] id = 59 ->  \* node names are input: siblings whose natural order and byte order differ (cos8 / cos16,
+                   \* x2 / x10), at the steps of unique paths (entry level and inside a container)
+         << ListX("l", "k", 0, 0, << << <<"cos16">> >>, << <<"q", "x10">> >> >>,
+                  << Leaf("k", "string"), Leaf("cos8", "string"), Leaf("cos16", "string"),
+                     Cont("q", << Leaf("x2", "string"), Leaf("x10", "string") >>) >>) >>
+    [] id = 60 ->  \* mandatory / default / case lookups among such siblings: digit runs, names that are prefixes of
+                   \* each other, names differing only in case or in - _ .
+         << PCont("p", << LeafM("a10", "string"), LeafD("a9", "string", "d9"), LeafD("a100", "string", "d100"), LeafM("a2", "string"),
+                          LeafD("ab", "string", "dab"), LeafM("abc", "string"), LeafD("v", "string", "dv"), LeafM("V", "string"),
+                          ChoiceD("c-2", "a-10", << Case("a-10", << LeafD("a-2", "string", "d-2"), Leaf("a_2", "string") >>),
+                                                    Case("a-2", << LeafD("a.2", "string", "d.2"), LeafM("a-10", "string") >>) >>) >>) >>
+    [] id = 61 ->  \* list entries and leaf-list values whose keys / values sort differently in natural and byte order, unique leaf
+                   \* among digit-run siblings, min / max on a leaf-list named like them
+         << ListX("l10", "l2", 2, 4, << << <<"l9">> >> >>, << Leaf("l2", "int8"), Leaf("l9", "string"), Leaf("l10", "string") >>),
+            LLmm("l2", "string", 2, 4) >>
+NDataShapes == 61
 =============================================================================
